@@ -113,6 +113,16 @@ func runDaemon1(t *testing.T, sc *DaemonScenario, dump io.Writer) (res RunResult
 	return
 }
 
+// afterJoin is called by runInitialDKG between the joins and the execution.
+func (e *daemonEngine) afterJoin() {
+	if f := e.sc.DKGFault; f != nil && f.Kind == "down" && f.Node > 0 && f.Node < e.sc.N {
+		// a participant that joined and then goes down before the execution: it is left out of
+		// the qualified set, the others complete with a hole in the index set
+		e.stopDaemon(e.nodes[f.Node])
+		e.rec.Count("fault:dkg_participant_down", 1)
+	}
+}
+
 func (e *daemonEngine) period() time.Duration { return time.Duration(e.sc.PeriodS) * time.Second }
 
 func (e *daemonEngine) dkgDuration() time.Duration {
@@ -145,6 +155,9 @@ func (e *daemonEngine) body(res *RunResult) {
 	}
 	time.Sleep(e.dkgDuration())
 	synctest.Wait()
+	if sc.DKGFault != nil {
+		e.w.Heal()
+	}
 	for _, id := range e.beaconIDs() {
 		cc := e.chains[id]
 		ep := e.collectEpoch(id, first, 1, nil)
@@ -554,7 +567,7 @@ func (e *daemonEngine) clientHTTP(n *dNode, kind string, round int64) {
 		}
 		want = uint64(round)
 		path = fmt.Sprintf("/public/%d", round)
-	case "next":
+	case "next", "next_cancel":
 		want = e.curRound("default") + 1
 		path = fmt.Sprintf("/public/%d", want)
 	case "info":
@@ -564,13 +577,19 @@ func (e *daemonEngine) clientHTTP(n *dNode, kind string, round int64) {
 	case "health":
 		path = "/health"
 	}
-	if cc.chain != nil && (kind == "round" || kind == "latest" || kind == "next") && len(cc.epochs) > 0 && round%2 == 1 {
+	if cc.chain != nil && (kind == "round" || kind == "latest" || kind == "next" || kind == "next_cancel") && len(cc.epochs) > 0 && round%2 == 1 {
 		// every other request goes under the chain hash prefix
 		path = "/" + e.chainHashHex("default") + path
 	}
 	rec := httptest.NewRecorder()
 	req := httptest.NewRequest("GET", path, nil)
 	ctx, cancel := context.WithTimeout(context.Background(), e.period()+5*time.Second)
+	if kind == "next_cancel" {
+		// the client walks away while its request is parked for the round to come
+		cancel()
+		ctx, cancel = context.WithTimeout(context.Background(), time.Duration(50+round%400)*time.Millisecond)
+		e.rec.Count("fault:http_client_gives_up", 1)
+	}
 	defer cancel()
 	func() {
 		defer func() {
@@ -594,7 +613,7 @@ func (e *daemonEngine) clientHTTP(n *dNode, kind string, round int64) {
 	}
 	e.rec.Count("probe:http_200", 1)
 	switch kind {
-	case "round", "latest", "next":
+	case "round", "latest", "next", "next_cancel":
 		body := rec.Body.Bytes()
 		if len(bytes.TrimSpace(body)) == 0 {
 			e.rec.Violate("C01", "http-200-with-empty-body", "http", "GET %s on %s answered 200 with an empty body", path, n.addr)
@@ -770,12 +789,25 @@ func (e *daemonEngine) finalChecks(healAt time.Time, res *RunResult) {
 		if len(sc.Reshares) > 0 {
 			prop = "C07"
 		}
+		// do the members agree on when the last transition is (was)?
+		facts := "behind"
+		tts := map[int64]bool{}
+		for _, i := range members {
+			if bp := e.bp(e.nodes[i], id); bp != nil {
+				if g := bp.VerifGroup(); g != nil {
+					tts[g.TransitionTime] = true
+				}
+			}
+		}
+		if len(tts) > 1 {
+			facts = "members-hold-different-transition-times"
+		}
 		for i, h := range heads {
 			if time.Since(e.nodes[i].since) < bound {
 				continue
 			}
 			if h+1 < due {
-				e.rec.Violate(prop, "chain-not-at-due-round", "behind", "node%d has head %d, due round %d, %s after the last fault (live members %d, threshold %d, epochs %d)", i, h, due, time.Since(healAt), live, cur.group.Threshold, len(cc.epochs))
+				e.rec.Violate(prop, "chain-not-at-due-round", facts, "node%d has head %d, due round %d, %s after the last fault (live members %d, threshold %d, epochs %d)", i, h, due, time.Since(healAt), live, cur.group.Threshold, len(cc.epochs))
 			}
 		}
 		e.rec.Count("probe:liveness_checked", 1)
